@@ -45,8 +45,11 @@ def obligations(ctx, tier):
                         want = "to_inexact_bitwise_digits_le"
                     if r == 256 and dbits == 8:
                         continue    # byte copy fast path: an inline loop, not a named terminal
+                    # the exact slicer is only valid when the digit width is a multiple of log2(radix): reaching it otherwise is
+                    # wrong whatever else changed (one-sided: the inexact slicer is general)
+                    wrong = ("::to_bitwise_digits_le",) if want == "to_inexact_bitwise_digits_le" else ()
                     reps.append(("r%d_value" % r, (lambda r=r, A=A: lambda W: {0: W.wrap(A, 1000003), 1: PI("u32", r)})(),
-                                 expect(("ret_call", "::" + want + "("[:0]))))
+                                 expect(("ret_call", "::" + want) + wrong)))
                 out += core.g_row(K, PROP, inh(A, m), reps)
                 out.append(core.p_plus(K, PROP, inh(A, m), "radix_range(256)"))
                 out += core.p_minus(K, PROP, inh(A, m), {"radix_range(256)"}, aud)
